@@ -644,6 +644,12 @@ fn non_acquiring(env: &Env, tid: Tid, label: &str, f: impl FnOnce()) {
 						format!("leak-after-panic|{what}"),
 						format!("a panic in user code called by `{label}` (the payload's Debug) left locks held"),
 					);
+					env.finding(
+						"C10",
+						tid,
+						format!("unusable-after-panic|{what}|payload-panicked"),
+						format!("a panic in user code called by `{label}` (the payload's Debug) left a lock held for good: it can never be acquired again"),
+					);
 				}
 			}
 			PanicKind::Killed(_) => {}
@@ -1639,6 +1645,7 @@ fn step_temp_coll(env: &Env, ctx: &mut ThreadCtx, kind: KindTag, members: &[Memb
 		let ok = match m {
 			MemberSpec::Leaf(i) => *i < env.world.leaves.len(),
 			MemberSpec::Wrap(i) => *i < env.world.leaves.len() && env.sem.spec.leaves[*i].wraps == 0,
+			MemberSpec::EmptyOwnedAt(i) => *i < env.world.leaves.len(),
 			MemberSpec::Coll(j) => *j < env.world.colls.len() && env.world.colls[*j].nest.is_some(),
 			MemberSpec::Inner(j, k) => {
 				*j < env.world.colls.len()
